@@ -385,6 +385,13 @@ PluralOps(cc) ==
       ops |-> <<[op |-> "add_parameter", n |-> a, v |-> Num(5)], [op |-> "add_parameter", n |-> b, v |-> Num(3)]>>],
      [op |-> "plural", name |-> "update_parameters",
       ops |-> <<[op |-> "update_parameter", n |-> a, v |-> Num(3)], [op |-> "update_parameter", n |-> b, v |-> Num(5)]>>],
+     \* the same plural forms with the second name alone / first (in most seed contents the first name is a variable, so
+     \* the two-element forms above stop at their first member)
+     [op |-> "plural", name |-> "update_parameters", ops |-> <<[op |-> "update_parameter", n |-> b, v |-> Num(5)]>>],
+     [op |-> "plural", name |-> "update_parameters",
+      ops |-> <<[op |-> "update_parameter", n |-> b, v |-> Num(0)], [op |-> "update_parameter", n |-> a, v |-> Num(5)]>>],
+     [op |-> "plural", name |-> "scale_parameters", ops |-> <<[op |-> "scale_parameter", n |-> b, f |-> 3]>>],
+     [op |-> "plural", name |-> "update_variables", ops |-> <<[op |-> "update_variable", n |-> a, v |-> Num(5)]>>],
      [op |-> "plural", name |-> "remove_parameters",
       ops |-> <<[op |-> "remove_parameter", n |-> a], [op |-> "remove_parameter", n |-> b]>>],
      [op |-> "plural", name |-> "scale_parameters",
